@@ -164,7 +164,12 @@ def one_case(rec, tap, rng, cid):
                                               == seg]
         ncont = np.array([np.sum((xsg >= d_) & (xsg < full["contact_point"]))
                           for d_ in db])
-        posed = (db <= full["contact_point"] - .3 * depth) & (ncont >= 10)
+        # (noisy data: at least half of the contact depth and 30 points,
+        #  otherwise the modulus of a scan entry is only loosely determined
+        #  and optimiser termination noise reaches the percent level)
+        frac_, npt_ = (.5, 30) if noisy else (.3, 10)
+        posed = (db <= full["contact_point"] - frac_ * depth) & \
+            (ncont >= npt_)
         rec.event("plateau scan entries compared", int(posed.sum()))
         rec.event("plateau scan entries ill-posed (skipped)",
                   int((~posed).sum()))
@@ -181,7 +186,10 @@ def one_case(rec, tap, rng, cid):
         if abs(fa["optimal_fit_delta"] - fb["optimal_fit_delta"]) > 1e-12:
             rec.event("plateau twins: selection flipped (not judged)")
             return
-        if fb["optimal_fit_delta"] > full["contact_point"] - .3 * depth:
+        xsg_m = (xsg >= fb["optimal_fit_delta"]) & \
+            (xsg < full["contact_point"])
+        if fb["optimal_fit_delta"] > full["contact_point"] - frac_ * depth \
+                or np.sum(xsg_m) < npt_:
             rec.event("plateau twins: final range ill-posed (not judged)")
             return
         rec.event("plateau twins: same plateau, parameters compared")
